@@ -312,6 +312,7 @@ func C07(c *Ctx) {
 	c.freshMapResult("C07-R1", "Bindings.Copy: never nil", c.P.Func("match", "Bindings", "Copy"), "Bindings.Copy can return nil: Step and Walk extend the copy of absent (nil) bindings on their error paths, and an assignment to an entry of a nil map panics")
 	c.freshMapResult("C07-R1", "NewBindings: never nil", c.P.Func("match", "", "NewBindings"), "NewBindings can return nil")
 	c07Invariant(c, compile)
+	c07ExecContract(c)
 	// ------------------------------------------------------------------ R2
 	n2 := map[string]int{}
 	for _, f := range fns {
@@ -1827,4 +1828,71 @@ func lenBound(ft flow.Fact, v ssa.Value) int64 {
 		return k
 	}
 	return 0
+}
+
+// c07ExecContract: Step and Branch.try use the execution an action or guard returns whenever the error is nil (the
+// nil-contract analysis accepts the err == nil edge as evidence, "pair rule").  FuncAction.Exec, through which every
+// action and guard runs, has to keep its side: no return hands back a nil execution together with a nil error.
+func c07ExecContract(c *Ctx) {
+	exec := c.fn("core", "FuncAction", "Exec")
+	if exec == nil {
+		return
+	}
+	scope := []*ssa.Function{exec}
+	nonNil := func(leaf ssa.Value, facts []flow.Fact) bool {
+		switch x := leaf.(type) {
+		case *ssa.Alloc, *ssa.MakeInterface:
+			return true
+		case *ssa.Call:
+			if sc := x.Common().StaticCallee(); sc != nil && sc.Name() == "NewExecution" {
+				return true
+			}
+			n := ssau.CalleeName(x)
+			if n == "errors.New" || n == "fmt.Errorf" {
+				return true
+			}
+		case *ssa.UnOp:
+			if _, isG := x.X.(*ssa.Global); isG {
+				return true // a package sentinel
+			}
+		}
+		for _, ft := range flow.Expand(facts) {
+			bo, ok := ft.Cond.(*ssa.BinOp)
+			if !ok || (bo.Op != token.NEQ && bo.Op != token.EQL) {
+				continue
+			}
+			if (bo.X == leaf && ssau.IsNilConst(bo.Y)) || (bo.Y == leaf && ssau.IsNilConst(bo.X)) {
+				if (bo.Op == token.NEQ) == ft.True {
+					return true
+				}
+			}
+		}
+		return false
+	}
+	n := 0
+	for _, b := range exec.Blocks {
+		ret, ok := b.Instrs[len(b.Instrs)-1].(*ssa.Return)
+		if !ok || len(ret.Results) != 2 {
+			continue
+		}
+		n++
+		base := flow.FactsAt(b)
+		allNonNil := func(v ssa.Value) bool {
+			srcs := sourcesWithFactsAt(v, scope, base)
+			if len(srcs) == 0 {
+				return false
+			}
+			for _, s := range srcs {
+				if ssau.IsNilConst(s.leaf) || !nonNil(s.leaf, append(append([]flow.Fact{}, base...), s.facts...)) {
+					return false
+				}
+			}
+			return true
+		}
+		ok2 := allNonNil(ret.Results[0]) || allNonNil(ret.Results[1])
+		c.R.Check(ok2, "C07-R1", fmt.Sprintf("FuncAction.Exec: return #%d gives an execution or an error", n), c.pos(ret), "the execution is never nil there, or the error never is", "FuncAction.Exec can return no execution and no error (a native action or guard that returns nil, nil): Step and Branch.try read the execution whenever the error is nil, and the host panics")
+	}
+	if n == 0 {
+		c.R.Break("C07-R1: FuncAction.Exec has no return")
+	}
 }
